@@ -120,6 +120,12 @@ def make_backend(cfg):
     return real_backend(b)
 
 
+# radius-dependent aspect ratios: 'fn' (unbounded power law; kept for the replay files recorded with it) and 'fnb' (bounded, what the generators
+# use: below 1 for the smallest classes, where kawin clamps it to exactly 1, saturating at 3)
+AR_FUNCS = {'fn': lambda R: 1.5 * (np.asarray(R, dtype=float) / 1e-9) ** 1.1,
+            'fnb': lambda R: 0.5 + 2.5 * np.asarray(R, dtype=float) / (np.asarray(R, dtype=float) + 1e-9)}
+
+
 def apply_temperature(m, tspec):
     if tspec['kind'] == 'const':
         m.setTemperature(tspec['T'])
@@ -177,7 +183,7 @@ def build_model(cfg, faults=(), allow_first=False, keep_log=True):
         shp = pp.get('shape', 'sphere')
         if shp != 'sphere':
             ar_ = pp.get('ar', 1.0)
-            m.setPrecipitateShape(shp, phase=p, ratio=(lambda R: 1.5 * (np.asarray(R, dtype=float) / 1e-9) ** 1.1) if ar_ == 'fn' else ar_)
+            m.setPrecipitateShape(shp, phase=p, ratio=AR_FUNCS[ar_] if ar_ in AR_FUNCS else ar_)
         if pp.get('strain'):
             # elastic strain energy of the precipitate (ellipsoidal inclusion); optionally the aspect ratio follows from it
             from kawin.precipitation import StrainEnergy
@@ -349,9 +355,9 @@ def gen_stub_config(rng, nphase=None, nel=None, temperature='const', allow_gb=Tr
         shape, ar = 'sphere', 1.0
         if allow_shapes and site in ('bulk', 'dislocations') and rng.random() < 0.25:
             shape = rng.choice(['needle', 'plate', 'cubic'])
-            # aspect ratio: constants incl. the default 1 (a non-spherical shape at ratio exactly 1), or a function of the radius that falls
-            # below 1 for the smallest classes (kawin clamps it to exactly 1 there)
-            ar = rng.choice([1.5, 2.0, 4.0, 1.0, 'fn'])
+            # aspect ratio: constants incl. the default 1 (a non-spherical shape at ratio exactly 1), or a bounded function of the radius
+            # (0.5 + 2.5 R/(R + 1 nm): below 1 for the smallest classes, where kawin clamps it to exactly 1, saturating at 3)
+            ar = rng.choice([1.5, 2.0, 4.0, 1.0, 'fnb'])
         pp[p] = {'thermo': gen_stub_phase(rng, nel, i, x0), 'gamma': rng.choice([0.1, 0.12, 0.15, 0.2, 0.25]),
                  'VmB': gen_volume(rng, VmA * rng.choice([1.0, 1.0, 0.5, 0.7, 1.5, 2.0])), 'site': site, 'shape': shape, 'ar': ar,
                  'infDiff': rng.random() < 0.8}
